@@ -1,10 +1,11 @@
 (* extraction of the C14 executable model; ExtrOcamlBasic only *)
 Require Extraction.
 Require Import ExtrOcamlBasic.
-Require Import Base Suggestion Ignore.
+Require Import Base Suggestion Ignore C14Bytes.
 Extraction Language OCaml.
 Extraction "../ocaml/gen/c14_model.ml" run_context_indices run_same_context context
-  run_export run_import import_into render_num ctx_eqb ignore_lint is_ignored remove_ignored ig_append.
+  run_export run_import import_into render_num ctx_eqb ignore_lint is_ignored remove_ignored ig_append
+  run_bytes default_hasher le64.   (* phase 5: the byte stream of the derived Hash + SipHash-1-3 (stream B) *)
 (* phase 3: LintContext::from_lint over the MODELLED Document::new_plain_english (C02's Lexer.v / Condense.v + the
    embedding of Model/C14Edit.v).  A second, self-contained file: the driver wraps it in a module `E` (the two token
    vocabularies share constructor names). *)
